@@ -49,6 +49,25 @@ def run(v, tier):
         eqlists.append(([[M(0), pi2v.EV(0)], [g, g]], []))
         eqlists.append(([[g, g], [g, g]], []))
     eqlists.append(([], []))
+    # both sides apply the SAME notation definition: partial applications (an open metavariable of the definition is
+    # matched like any other), arguments the definition ignores, arguments in other holes, with and without seeds
+    for _ in range(200 if quick else 2500):
+        a, b, c, d = (rng.choice(vals) for _ in range(4))
+        dfn = rng.choice([N['and'](a, b)['p'], N['or'](a, b)['p'], N['neg'](a)['p'], N['equiv'](a, b)['p']])
+        shapes = [([(0, M(0)), (1, M(1))], [(0, a), (1, b)]),                     # full / full
+                  ([(0, M(2))], [(0, a)]),                                         # partial / partial: metavar 1 stays open on both sides
+                  ([(0, M(2))], [(0, a), (1, b)]),                                 # partial / full
+                  ([(0, M(0)), (1, M(1)), (5, c)], [(0, a), (1, b), (5, d)]),      # key 5 does not occur in the definition
+                  ([(0, M(0)), (1, M(1))], [(1, b), (0, a)]),                      # other key order
+                  ([(1, M(0)), (0, M(1))], [(0, a), (1, b)]),
+                  ([], [(0, a)]), ([(0, a)], [])]
+        for pd, qd in shapes:
+            P_, Q_ = pi2v.NINST(dfn, pd), pi2v.NINST(dfn, qd)
+            eqlists.append(([[P_, Q_]], []))
+            eqlists.append(([[P_, Q_]], [[1, b]]))
+            eqlists.append(([[P_, Q_]], [[1, M(1)]]))
+            eqlists.append(([[P_, Q_]], [[2, a]]))
+            eqlists.append(([[pi2v.IMP(P_, M(1)), pi2v.IMP(Q_, b)]], []))
     for _ in range(300 if quick else 4000):        # multi-equation lists with shared metavariables
         a, b = rng.choice(vals), rng.choice(vals)
         eqlists.append(([[pi2v.IMP(M(0), M(1)), pi2v.IMP(a, b)], [M(0), rng.choice((a, b))]], []))
